@@ -41,6 +41,21 @@ func zzLE64(x uint64) []byte {
 	return append(zzLE32(uint32(x)), zzLE32(uint32(x>>32))...)
 }
 
+// zzPickID: the id of one of the objects added so far, or an arbitrary id that is neither theirs nor
+// the root's (ids are random: the harness never guesses them, so a replay works with any ids).
+func zzPickID(objs []*zzObj, label string) uint32 {
+	k := sym.Choose(label+"-target", len(objs)+1)
+	if k < len(objs) {
+		return objs[k].id
+	}
+	id := sym.U32(label + "-unknown-id")
+	sym.Assume(id != 1)
+	for _, o := range objs {
+		sym.Assume(id != o.id)
+	}
+	return id
+}
+
 // zzRoundTrip sends one Call frame and returns the frames written back while it was processed.
 func zzRoundTrip(a *zzStream, f net.Message) []net.Message {
 	before := len(a.sentMessages())
@@ -85,8 +100,8 @@ func c16Lifetime(steps int) {
 				sym.Assert(atomic.LoadInt32(&o.calls) == 1, "added-object-not-invoked")
 				atomic.StoreInt32(&o.calls, 0)
 			}
-		case 1: // local remove of an arbitrary id
-			id := sym.U32("remove-id")
+		case 1: // local remove of one of the objects (live or already removed) or of an unknown id
+			id := zzPickID(objs, "remove")
 			err := service.Remove(id)
 			var target *zzObj
 			for _, o := range objs {
@@ -97,10 +112,8 @@ func c16Lifetime(steps int) {
 			if target != nil {
 				sym.Assert(err == nil, "remove-live-object-failed")
 				target.live = false
-			} else if id != 1 {
-				sym.Assert(err != nil, "remove-unknown-object-accepted")
 			} else {
-				return // removing the root object: end of this scenario
+				sym.Assert(err != nil, "remove-unknown-object-accepted")
 			}
 		case 2: // remote terminate (action 3) on one of the objects
 			if len(objs) > 0 {
@@ -121,8 +134,8 @@ func c16Lifetime(steps int) {
 					subscribed[o] = id
 				}
 			}
-		default: // call an arbitrary object id
-			id := sym.U32("call-id")
+		default: // call one of the objects (live or removed) or an unknown id
+			id := zzPickID(objs, "call")
 			var target *zzObj
 			for _, o := range objs {
 				if o.id == id {
